@@ -359,6 +359,16 @@ pub fn gen_msg_program(id: &str, tape: Vec<u32>, opts: &GenOpts) -> Program {
             module: mods[i].to_string(),
             trait_name,
             explicit_as,
+            assoc_names: {
+                // a third of the interfaces name their associated types conventionally instead of A0, A1..
+                const POOL: &[&str] = &["Item", "Param", "Data", "T", "K", "V", "Msg", "Value"];
+                if !assoc.is_empty() && t.chance(33) {
+                    let start = t.pick(POOL.len());
+                    (0..assoc.len()).map(|k| POOL[(start + k) % POOL.len()].to_string()).collect()
+                } else {
+                    vec![]
+                }
+            },
             assoc,
             style,
             methods: ms,
